@@ -2,6 +2,7 @@
 //! enumeration, input enumeration.
 mod envcheck;
 mod envx;
+mod graphx;
 mod ring;
 mod subjects;
 
@@ -25,6 +26,7 @@ fn main() {
         let r = match v["replay"]["engine"].as_str().unwrap_or("") {
             "ring" => ring::replay_json(&v["replay"]),
             "envx" => env_replay(&v),
+            "graphx" => graphx::replay_json(&v["replay"]),
             e => Err(format!("unknown engine {e:?}")),
         };
         match r {
@@ -47,6 +49,7 @@ fn main() {
     let rep = match args[1].as_str() {
         "ring" => ring::run(prop, tier, shard),
         "env" => env_run(prop, tier, shard),
+        "graph" => graphx::run(tier, shard),
         _ => usage(),
     };
     rep.emit();
